@@ -3,12 +3,15 @@ package posix
 import (
 	"bytes"
 	"context"
+	"crypto/sha256"
 	"encoding/hex"
 	"io"
+	"strconv"
 
 	"github.com/aws/aws-sdk-go-v2/service/s3"
 	"github.com/aws/aws-sdk-go-v2/service/s3/types"
 	"github.com/versity/versitygw/auth"
+	"github.com/versity/versitygw/backend"
 	"github.com/versity/versitygw/backend/meta"
 	"github.com/versity/versitygw/internal/zzvf"
 	"github.com/versity/versitygw/internal/zzvfos"
@@ -395,4 +398,201 @@ func VfConfinement() {
 			zzvf.Fail("dot-segments-are-not-resolved")
 		}
 	}
+}
+
+// ---- C08: multipart
+
+func vfPartPath(bucket, key, uploadID string, n int32) string {
+	sum := sha256.Sum256([]byte(key))
+	return bucket + "/" + metaTmpMultipartDir + "/" + hex.EncodeToString(sum[:]) + "/" + uploadID + "/" + strconv.Itoa(int(n))
+}
+
+// vfStorePart puts a part into an upload directly in the model: small literal data plus abstract bulk of symbolic size
+// (part sizes around the 5 MiB minimum cannot be uploaded byte by byte).
+func vfStorePart(bucket, key, uploadID string, n int32, data []byte, bulk int64, etag string) {
+	path := vfPartPath(bucket, key, uploadID, n)
+	zzvf.Assert(zzvfos.WriteFile(path, data, 0o644) == nil, "setup-part-file")
+	fi, _ := zzvfos.Stat(path)
+	node := fi.(interface{ Node() *zzvfos.Inode }).Node()
+	node.Bulk = bulk
+	node.Xattr["user.etag"] = []byte(etag)
+}
+
+// VfMultipartComplete: C08 – one CompleteMultipartUpload from a pre-state with two uploads for the same key, each with
+// stored parts of symbolic size and ETag, and a request listing up to three parts with symbolic numbers and ETags.
+// Success exactly when numbers are >= 1 and strictly increasing, every ETag equals the stored one and every part but the
+// last is at least 5 MiB; then the object is the concatenation of the listed parts with the multipart ETag and the metadata
+// given at initiation, the upload is gone and the other upload untouched; otherwise the key is unchanged.
+func VfMultipartComplete() {
+	vfWorld()
+	p := vfNewPosix(vfConfig{})
+	vfMustBucket(p, "bkt")
+	key := "k"
+	existing := zzvf.Choice("key_exists", 2) == 1
+	if existing {
+		three := int64(3)
+		p.PutObject(vfCtx(), s3response.PutObjectInput{Bucket: vfStr("bkt"), Key: &key, Body: bytes.NewReader([]byte("OLD")), ContentLength: &three})
+	}
+	ctype := "text/x"
+	up1, err := p.CreateMultipartUpload(vfCtx(), s3response.CreateMultipartUploadInput{Bucket: vfStr("bkt"), Key: &key, ContentType: &ctype,
+		Metadata: map[string]string{"owner": "me"}})
+	zzvf.Assert(err == nil, "setup-create-upload-1")
+	up2, err := p.CreateMultipartUpload(vfCtx(), s3response.CreateMultipartUploadInput{Bucket: vfStr("bkt"), Key: &key})
+	zzvf.Assert(err == nil, "setup-create-upload-2")
+	zzvf.Assert(up1.UploadId != up2.UploadId, "upload-ids-distinct")
+	// stored parts of upload 1: numbers 1..3, literal first byte + bulk of symbolic size, ETags e1..e3
+	nparts := 3
+	var sizes []int64
+	var etags []string
+	for i := 1; i <= nparts; i++ {
+		bulk := zzvf.Int64("part_bulk")
+		zzvf.Assume(zzvf.And(bulk >= 0, bulk <= 16*1024*1024))
+		e := "e" + strconv.Itoa(i)
+		vfStorePart("bkt", key, up1.UploadId, int32(i), []byte{byte('A' + i)}, bulk, e)
+		sizes = append(sizes, 1+bulk)
+		etags = append(etags, e)
+	}
+	vfStorePart("bkt", key, up2.UploadId, 1, []byte("Q"), 0, "q1")
+	_, oldData, oldSize, oldETag := vfObjectState("bkt/k")
+	// the request
+	nreq := 1 + zzvf.Choice("listed_parts", 3)
+	var parts []types.CompletedPart
+	valid := true
+	var prev int32
+	var wantData []byte
+	var wantBulk int64
+	for i := 0; i < nreq; i++ {
+		pn := int32(zzvf.Choice("part_number", 4)) // 0..3
+		tag := []string{"e1", "e2", "e3", "wrong"}[zzvf.Choice("etag", 4)]
+		t := tag
+		n := pn
+		parts = append(parts, types.CompletedPart{PartNumber: &n, ETag: &t})
+		if pn < 1 || pn <= prev {
+			valid = false
+		}
+		prev = pn
+		if pn >= 1 && pn <= 3 {
+			if tag != etags[pn-1] {
+				valid = false
+			}
+			wantData = append(wantData, byte('A'+pn))
+			wantBulk += sizes[pn-1] - 1
+		} else {
+			valid = false
+		}
+	}
+	sizeOK := true
+	for i := 0; i < nreq-1; i++ {
+		pn := *parts[i].PartNumber
+		if pn >= 1 && pn <= 3 {
+			sizeOK = zzvf.And(sizeOK, sizes[pn-1] >= 5*1024*1024)
+		}
+	}
+	res, err := p.CompleteMultipartUpload(vfCtx(), &s3.CompleteMultipartUploadInput{Bucket: vfStr("bkt"), Key: &key, UploadId: &up1.UploadId,
+		MultipartUpload: &types.CompletedMultipartUpload{Parts: parts}})
+	exists, data, size, etag := vfObjectState("bkt/k")
+	if err == nil {
+		zzvf.Reach("completed")
+		zzvf.Assert(valid, "completion-requires-valid-numbers-order-and-etags")
+		zzvf.Assert(sizeOK, "completion-requires-5MiB-for-every-part-but-the-last")
+		zzvf.Assert(exists, "completed-object-exists")
+		zzvf.Assert(zzvf.BytesEq(data, wantData), "object-is-the-concatenation-of-the-listed-parts")
+		zzvf.Assert(size == int64(len(wantData))+wantBulk, "object-size-is-the-sum-of-the-listed-parts")
+		var listed []string
+		for _, cp := range parts {
+			listed = append(listed, *cp.ETag)
+		}
+		zzvf.Assert(etag == backendMultipartETag(listed), "object-etag-is-the-multipart-etag")
+		zzvf.Assert(res.ETag != nil, "result-has-etag")
+		_, serr := zzvfos.Stat("bkt/" + metaTmpMultipartDir + "/" + vfKeyDir(key) + "/" + up1.UploadId)
+		zzvf.Assert(serr != nil, "completed-upload-is-gone")
+		_, oerr := zzvfos.Stat(vfPartPath("bkt", key, up2.UploadId, 1))
+		zzvf.Assert(oerr == nil, "other-upload-untouched")
+	} else {
+		zzvf.Reach("refused")
+		zzvf.Assert(zzvf.Not(zzvf.And(valid, sizeOK)), "valid-completion-is-accepted")
+		zzvf.Assert(exists == existing, "refused-completion-keeps-key-presence")
+		if existing && exists {
+			zzvf.Assert(zzvf.And(size == oldSize, zzvf.BytesEq(data, oldData), etag == oldETag), "refused-completion-keeps-previous-object")
+		}
+	}
+}
+
+func vfKeyDir(key string) string {
+	sum := sha256.Sum256([]byte(key))
+	return hex.EncodeToString(sum[:])
+}
+
+func backendMultipartETag(etags []string) string {
+	var parts []types.CompletedPart
+	for i := range etags {
+		e := etags[i]
+		parts = append(parts, types.CompletedPart{ETag: &e})
+	}
+	return backend.GetMultipartMD5(parts)
+}
+
+// VfMultipartProgram: C08 – a short program over two uploads of the same key: upload a part, upload the same number again,
+// list parts, then abort or complete one upload. The completed object is the most recent upload of the part, parts and
+// uploads never show up as objects, the finished upload's id and parts are gone, the other upload is untouched.
+func VfMultipartProgram() {
+	vfWorld()
+	p := vfNewPosix(vfConfig{})
+	vfMustBucket(p, "bkt")
+	key := "k"
+	up1, err := p.CreateMultipartUpload(vfCtx(), s3response.CreateMultipartUploadInput{Bucket: vfStr("bkt"), Key: &key})
+	zzvf.Assert(err == nil, "create-upload-1")
+	up2, err := p.CreateMultipartUpload(vfCtx(), s3response.CreateMultipartUploadInput{Bucket: vfStr("bkt"), Key: &key})
+	zzvf.Assert(err == nil, "create-upload-2")
+	one := int64(1)
+	pn := int32(1)
+	first, second, other := zzvf.BytesN("first", 1), zzvf.BytesN("second", 1), zzvf.BytesN("other", 1)
+	r1, err := p.UploadPart(vfCtx(), &s3.UploadPartInput{Bucket: vfStr("bkt"), Key: &key, UploadId: &up1.UploadId, PartNumber: &pn, Body: bytes.NewReader(first), ContentLength: &one})
+	zzvf.Assert(err == nil, "upload-part")
+	_, err = p.UploadPart(vfCtx(), &s3.UploadPartInput{Bucket: vfStr("bkt"), Key: &key, UploadId: &up2.UploadId, PartNumber: &pn, Body: bytes.NewReader(other), ContentLength: &one})
+	zzvf.Assert(err == nil, "upload-part-other-upload")
+	latest, latestETag := first, ""
+	if r1 != nil && r1.ETag != nil {
+		latestETag = *r1.ETag
+	}
+	if zzvf.Choice("reupload", 2) == 1 {
+		r2, err := p.UploadPart(vfCtx(), &s3.UploadPartInput{Bucket: vfStr("bkt"), Key: &key, UploadId: &up1.UploadId, PartNumber: &pn, Body: bytes.NewReader(second), ContentLength: &one})
+		zzvf.Assert(err == nil, "re-upload-part")
+		latest = second
+		if r2 != nil && r2.ETag != nil {
+			latestETag = *r2.ETag
+		}
+	}
+	// parts and uploads are not objects
+	mk := int32(100)
+	l, err := p.ListObjectsV2(vfCtx(), &s3.ListObjectsV2Input{Bucket: vfStr("bkt"), Prefix: vfStr(""), ContinuationToken: vfStr(""),
+		Delimiter: vfStr(""), StartAfter: vfStr(""), MaxKeys: &mk})
+	zzvf.Assert(zzvf.And(err == nil, len(l.Contents) == 0, len(l.CommonPrefixes) == 0), "in-progress-uploads-are-not-listed-as-objects")
+	lp, err := p.ListParts(vfCtx(), &s3.ListPartsInput{Bucket: vfStr("bkt"), Key: &key, UploadId: &up1.UploadId, MaxParts: &mk, PartNumberMarker: vfStr("")})
+	zzvf.Assert(zzvf.And(err == nil, len(lp.Parts) == 1), "list-parts-shows-one-part")
+	if err == nil && len(lp.Parts) == 1 {
+		zzvf.Assert(zzvf.And(lp.Parts[0].PartNumber == 1, lp.Parts[0].ETag == latestETag, lp.Parts[0].Size == 1), "list-parts-shows-the-latest-upload-of-the-part")
+	}
+	if zzvf.Choice("finish", 2) == 0 {
+		err = p.AbortMultipartUpload(vfCtx(), &s3.AbortMultipartUploadInput{Bucket: vfStr("bkt"), Key: &key, UploadId: &up1.UploadId})
+		zzvf.Assert(err == nil, "abort")
+		zzvf.Reach("aborted")
+		ex, _, _, _ := vfObjectState("bkt/k")
+		zzvf.Assert(!ex, "abort-creates-no-object")
+	} else {
+		_, err = p.CompleteMultipartUpload(vfCtx(), &s3.CompleteMultipartUploadInput{Bucket: vfStr("bkt"), Key: &key, UploadId: &up1.UploadId,
+			MultipartUpload: &types.CompletedMultipartUpload{Parts: []types.CompletedPart{{PartNumber: &pn, ETag: &latestETag}}}})
+		zzvf.Assert(err == nil, "complete")
+		zzvf.Reach("completed")
+		ex, data, size, _ := vfObjectState("bkt/k")
+		zzvf.Assert(zzvf.And(ex, size == 1), "completed-object-exists")
+		zzvf.Assert(zzvf.BytesEq(data, latest), "completed-object-is-the-most-recent-upload-of-the-part")
+	}
+	// the finished upload is gone, the other one is intact
+	_, err = p.ListParts(vfCtx(), &s3.ListPartsInput{Bucket: vfStr("bkt"), Key: &key, UploadId: &up1.UploadId, MaxParts: &mk, PartNumberMarker: vfStr("")})
+	zzvf.Assert(err != nil, "finished-upload-id-is-gone")
+	lp2, err := p.ListParts(vfCtx(), &s3.ListPartsInput{Bucket: vfStr("bkt"), Key: &key, UploadId: &up2.UploadId, MaxParts: &mk, PartNumberMarker: vfStr("")})
+	zzvf.Assert(zzvf.And(err == nil, len(lp2.Parts) == 1), "other-upload-still-has-its-part")
+	_, od, _, _ := vfObjectState(vfPartPath("bkt", key, up2.UploadId, 1))
+	zzvf.Assert(zzvf.BytesEq(od, other), "other-upload's-part-unchanged")
 }
